@@ -874,8 +874,8 @@ impl CommandExecutor for DrawExecutor {
                     return Err(anyhow::anyhow!("PolyFill requires minimun 1 arguments"));
                 }
                 let points: i32 = parameters[0];
-                if points * 2 + 1 != parameters.len() as i32 {
-                    return Err(anyhow::anyhow!("PolyFill requires {} arguments was {} ", points * 2 + 1, parameters.len()));
+                if points < 1 || points.saturating_mul(2).saturating_add(1) != parameters.len() as i32 {
+                    return Err(anyhow::anyhow!("PolyFill requires {} arguments was {} ", points.saturating_mul(2).saturating_add(1), parameters.len()));
                 }
                 self.fill_poly(&parameters[1..]);
                 if self.draw_border {
@@ -889,8 +889,8 @@ impl CommandExecutor for DrawExecutor {
                     return Err(anyhow::anyhow!("PolyLine requires minimun 1 arguments"));
                 }
                 let points: i32 = parameters[0];
-                if points * 2 + 1 != parameters.len() as i32 {
-                    return Err(anyhow::anyhow!("PolyLine requires {} arguments was {} ", points * 2 + 1, parameters.len()));
+                if points < 1 || points.saturating_mul(2).saturating_add(1) != parameters.len() as i32 {
+                    return Err(anyhow::anyhow!("PolyLine requires {} arguments was {} ", points.saturating_mul(2).saturating_add(1), parameters.len()));
                 }
                 self.draw_polyline(&parameters[1..]);
                 self.cur_position = Position::new(parameters[parameters.len() - 2], parameters[parameters.len() - 1]);
